@@ -4,7 +4,7 @@ from __future__ import annotations
 import ast
 from typing import Optional
 
-from ..core.repo import (AnalysisError, Repo, call_name, calls_in, dotted, is_const, names_in,
+from ..core.repo import (AnalysisError, Repo, call_name, calls_in, definitions, dotted, func_params, is_const, kwarg, names_in,
                          stmts_in_order, unparse, walk_no_nested_defs)
 from ..domains.codec import (SER, ReaderModel, WriterModel, attrs_store_key, eval_key_filter,
                              flatten_if_chain, key_pattern)
@@ -424,6 +424,12 @@ def run(check, repo: Repo) -> None:
 
     # ---- R9 configuration non-interference -----------------------------------------------
     _rule_config(check, repo)
+
+    # ---- R10 element order of element-wise encoded sequences ----------------------------------
+    _rule_sequence_order(check, repo)
+
+    # ---- R11 raw-array probe falls back on every failure ------------------------------------
+    _rule_probe_handlers(check, repo)
 
 
 def _rule_reserved_keys(check, repo: Repo, W: WriterModel, R: ReaderModel, rule: str = "C01-R3", only=None) -> None:
@@ -907,6 +913,91 @@ def _site_context(R: ReaderModel, n: ast.AST) -> str:
         if any(x is n for x in ast.walk(fake)):
             return "ctx=" + "|".join(sorted(vals))
     return "ctx=attribute"
+
+
+def _rule_sequence_order(check, repo: Repo) -> None:
+    """R10: the element-wise decoder of list/tuple groups visits the stored indices in NUMERIC order
+    (keys are the decimal strings "0", "1", …, "10", …; any string ordering permutes sequences of more
+    than ten elements)."""
+    mod, dc = repo.func(f"{SER}:AutoSerialize._deserialize_container")
+    arm = None
+    for n in walk_no_nested_defs(dc):
+        if isinstance(n, ast.If):
+            consts = {c.value for c in ast.walk(n.test) if isinstance(c, ast.Constant)}
+            if {"list", "tuple"} <= consts:
+                arm = n
+                break
+    if arm is None:
+        raise AnalysisError("_deserialize_container: list/tuple arm not found")
+    loops = []
+    for n in ast.walk(ast.Module(body=arm.body, type_ignores=[])):
+        if isinstance(n, ast.For) and any(isinstance(c, ast.Call) and isinstance(c.func, ast.Attribute) and c.func.attr == "append" for c in ast.walk(n)):
+            loops.append(n)
+    # only outermost appending loops
+    loops = [l for l in loops if not any(l is not o and any(x is l for x in ast.walk(o)) for o in loops)]
+    check.floor("element-wise sequence decode loops", len(loops), 1)
+    for lp in loops:
+        it = lp.iter
+        cn = (call_name(it) or "") if isinstance(it, ast.Call) else ""
+        var = lp.target.id if isinstance(lp.target, ast.Name) else None
+        verdict, why = None, unparse(it)[:80]
+        if cn == "range":
+            verdict = True
+            why = f"range(…): ascending integers; key = str(index)"
+        elif cn == "sorted":
+            key = kwarg(it, "key")
+            inner = it.args[0] if it.args else None
+            ints = inner is not None and any(isinstance(c, ast.Call) and call_name(c) == "int" for c in ast.walk(inner)) \
+                and not any(isinstance(c, ast.Call) and call_name(c) == "str" for c in ast.walk(inner))
+            if (key is not None and unparse(key) == "int") or ints:
+                verdict = True
+                why = "sorted numerically"
+            else:
+                # resolve a named iterable
+                verdict = False
+                why = f"`{unparse(it)[:70]}` orders the decimal index strings lexicographically ('10' < '2')"
+        elif isinstance(it, ast.Name):
+            dd = [d for d in definitions(dc, it.id) if isinstance(d, ast.AST)]
+            if len(dd) == 1 and isinstance(dd[0], ast.Call) and call_name(dd[0]) == "sorted":
+                key = kwarg(dd[0], "key")
+                inner = dd[0].args[0] if dd[0].args else None
+                ints = inner is not None and any(isinstance(c, ast.Call) and call_name(c) == "int" for c in ast.walk(inner)) \
+                    and not any(isinstance(c, ast.Call) and call_name(c) == "str" for c in ast.walk(inner))
+                verdict = (key is not None and unparse(key) == "int") or ints
+                why = "sorted numerically" if verdict else f"`{it.id} = {unparse(dd[0])[:70]}` orders the decimal index strings lexicographically ('10' < '2')"
+        if verdict is None:
+            raise AnalysisError(f"_deserialize_container: iteration source `{unparse(it)[:60]}` of the sequence decode loop is not a recognised ordering idiom")
+        check.decide(verdict, "C01-R10", "_deserialize_container[list|tuple]: elements are read back in numeric index order", why, mod.line(lp),
+                     fail_detail=f"{why}: sequences with more than ten element-wise encoded entries come back permuted")
+
+
+def _rule_probe_handlers(check, repo: Repo) -> None:
+    """R11: `dill.loads(gzip.decompress(raw array bytes))` is a *probe* — plain arrays are expected to
+    fail it, and arbitrary bytes can make gzip/pickle raise any exception class (EOFError on empty input,
+    zlib.error, UnpicklingError, AttributeError, …).  The fallback handler must therefore catch Exception."""
+    n_sites = 0
+    for q in (f"{SER}:AutoSerialize._recursive_load", f"{SER}:AutoSerialize._deserialize_container"):
+        mod, fn = repo.func(q)
+        for t in ast.walk(fn):
+            if not isinstance(t, ast.Try):
+                continue
+            body_calls = {call_name(c) or "" for st in t.body for c in ast.walk(st) if isinstance(c, ast.Call)}
+            if not (body_calls & {"dill.loads", "pickle.loads"}):
+                continue
+            # a probe = the payload comes from array bytes read in the same function and the handler substitutes the array
+            if not any("tobytes" in (call_name(c) or "") or (isinstance(c.func, ast.Attribute) and c.func.attr == "tobytes") for st in t.body for c in ast.walk(st) if isinstance(c, ast.Call)):
+                continue
+            n_sites += 1
+            broad = False
+            for h in t.handlers:
+                names = [] if h.type is None else [dotted(x) or unparse(x) for x in (h.type.elts if isinstance(h.type, ast.Tuple) else [h.type])]
+                if h.type is None or any(nm in ("Exception", "BaseException") for nm in names):
+                    broad = True
+            caught = [unparse(h.type) if h.type is not None else "<bare>" for h in t.handlers]
+            check.decide(broad, "C01-R11", f"{q.split('.')[-1]}: the gzip+dill probe on raw array bytes falls back to the plain array on every failure", str(caught), mod.line(t),
+                         fail_detail=f"handlers catch only {caught}: bytes of a plain array can raise other classes (e.g. EOFError for an empty array → "
+                                     f"gzip.decompress(b'') == b'' → dill.loads(b'')), and load() aborts instead of returning the array")
+    check.floor("raw-array probes", n_sites, 1)
 
 
 def _rule_config(check, repo: Repo) -> None:
